@@ -140,4 +140,28 @@ CLAIMED.update({
         technique="TLA+ layout specification checked by TLC; TLC trace validation of recorded exports",
         ref="DESIGN.md section 4 C20"),
 })
+CLAIMED.update({
+    "C12": dict(
+        text=("Player.tla specifies playback as per-track cursors with Send enabled only for a head of minimal scheduled time (ties free), Skip for non-playable events, the port map rule and "
+              "never-early; TLC checks on the model that every behaviour is a stable merge sending each channel message exactly once, and that the trace acceptor accepts exactly those. Real plays "
+              "(files with >=13 events per tick, 1-6 tracks, duplicate messages across tracks, all selections and port maps) are recorded through fake out ports and TLC decides whether each "
+              "observed send sequence is explainable, inferring the unlogged source track of every send."),
+        note="Only the lower bound of send instants is judged (load cannot cause an alarm). Scheduled times are the library's own (their correctness is C11). Sysex may be sent or skipped.",
+        technique="TLA+ player model checked by TLC; TLC trace validation with inference of unlogged nondeterminism",
+        ref="DESIGN.md section 4 C12"),
+    "C16": dict(
+        text=("Convert.tla states the conversion clauses (division kept, multiset of (absolute tick, message) preserved, placement by channel, per-track order, termination) and an abstract stable "
+              "partition; TLC checks the abstract conversion satisfies them and that seven wrong conversions are rejected. The real ConvertToSMF1 is run on the exhaustive small scope of the model "
+              "config and on random single-track files (to 400 events, 16 channels, >=13 events on a tick) and TLC judges every record."),
+        note="Order of channel tracks, terminator position and an empty first track are left free. Sum of source deltas below 2^30.",
+        technique="TLA+ conversion specification checked by TLC; TLC trace validation of recorded conversions",
+        ref="DESIGN.md section 4 C16"),
+    "C19": dict(
+        text=("MidicatLine.tla specifies the line encoder, the grammar and a character-level reader automaton; TLC checks losslessness under all fragmentations, one record per line, resumption after "
+              "malformed lines (107 k / 1.5 M states). Binding: the texts of TLC's dumped state graph are fed to the real ReadAndConvert under several delivery modes (G), and seeded record sequences "
+              "(int32 stamps, 1..2000 bytes) with the four mutation kinds and fragmenting readers are judged call by call by TLC (T)."),
+        note="Lower-case hex may be accepted or rejected; how much of a malformed line an erroring call consumes is free as long as later records are unmodified originals.",
+        technique="TLA+ reader automaton checked by TLC; TLC-generated texts replayed into the real reader; TLC trace validation",
+        ref="DESIGN.md section 4 C19"),
+})
 NOT_YET = {}
